@@ -726,7 +726,7 @@ Qed.
 
 Ltac expects_tac :=
   apply expects_of_ok;
-  cbv [expects_of t_script T_connect_elect T_repeated_params T_add_ipv4_rib T_add_ipv4_fib add_ipv4 T_idempotent_delete T_idempotent_delete_fib idempotent_delete T_get_ipv4 T_flush_specific T_lower_id T_dec_id
+  cbv [expects_of t_script T_connect_elect T_repeated_params T_add_ipv4_rib T_add_ipv4_fib add_ipv4 T_idempotent_delete T_idempotent_delete_fib idempotent_delete T_get_ipv4 T_flush_specific T_lower_id T_dec_id T_get_nhg T_get_chain
        T_same_id_two_clients T_unannounced_id T_get_nh T_flush_master session cleanup connect params elect sendops close doflush doget
        app map flat_map];
   repeat (constructor; [first [apply has_res_ok|apply no_errors_ok|apply has_error_code_ok|apply params_acked_ok
